@@ -437,6 +437,37 @@ impl OrdSpecImpl for Version { open spec fn obeys_cmp_spec() -> bool { true } op
     if err_types_ok:
         g.unit('number_check', u_number)
 
+    def u_identifier():
+        f = top_fn(LIB, 'identifier')
+        body = f.verbatim
+        mk = '|s: &str| {'
+        i = body.find(mk)
+        if i < 0 or 'take_while(1.., |x: char| AsChar::is_alphanum(x as u8) || x == \'-\')' not in body:
+            raise AnchorLost('identifier(): `Parser::map(take_while(1.., alnum or -), |s: &str| {..})`')
+        k = i + len(mk) - 1
+        e = match_brace(body, k)
+        sl = Slice(LIB, f.start + k, f.start + e, 'closure in identifier()')
+        sl.rewrites.append('R5 closure body lifted into fn identifier_classify(s)')
+        t = sl.text
+        # R12: a datatype constructor used as a function value is eta-expanded (Verus does not support the former); the two closures
+        # receive their contracts
+        t2 = t.replace('.map(Identifier::Numeric)', '.map(|n: u64| -> (i: Identifier) ensures i == Identifier::Numeric(n) { Identifier::Numeric(n) })')
+        if t2 != t:
+            sl.rewrites.append('R12 `.map(Identifier::Numeric)` eta-expanded to a closure')
+        t3 = t2.replace('.unwrap_or_else(|_err| Identifier::AlphaNumeric(s.to_string()))', '.unwrap_or_else(|_err: std::num::ParseIntError| -> (i: Identifier) ensures i matches Identifier::AlphaNumeric(t) && t@ == s@ { Identifier::AlphaNumeric(s.to_string()) })')
+        if t3 == t2 or t2 == t:
+            g.lost_hints.append('identifier_classify: closure annotations dropped (the expression no longer has the shape `parse.map(Numeric).unwrap_or_else(..)`)')
+        sl.text = t3
+        sig = "pub fn identifier_classify(s: &str) -> (r: Identifier)\n    ensures match parse_spec::<u64>(s@) { Some(n) => r == Identifier::Numeric(n), None => r matches Identifier::AlphaNumeric(t) && t@ == s@ },  // @identifier#classify\n"
+        if 'identifier_classify' in g.stub:
+            g.stubbed.append('identifier_classify')
+            g.rec(sl, 'identifier_classify', 'm_parse', 'closure', dropped='BODY NOT VERIFIED (stubbed as external_body)')
+            g.emit('m_parse', '#[verifier::external_body]\n' + sig + '{ unimplemented!() }\n')
+            return
+        g.rec(sl, 'identifier_classify', 'm_parse', 'closure', dropped='winnow combinator call around the closure (Parser::map / take_while / context / parse_next)')
+        g.emit('m_parse', sig + sl.text + '\n')
+    g.unit('identifier_classify', u_identifier)
+
     def u_range_set():
         f = top_fn(RNG, 'range_set')
         body = f.verbatim
